@@ -22,6 +22,12 @@ def M(id_, file, old, new, props):
 
 
 MUTANTS = [
+    M('split-index-from-linear-volumes', U,
+      "index = np.argmax(np.where(~self.block, self.log_v_all, -np.inf))",
+      "index = np.argmax(np.exp(self.log_v_all) * ~self.block)", 'C13 C08'),
+    M('weights-unshifted-exponential', S, "sum_w = np.exp(self.shell_log_l + self.shell_log_v -\n"
+      "                       np.nanmax(self.shell_log_l + self.shell_log_v))[select]",
+      "sum_w = np.exp(self.shell_log_l + self.shell_log_v)[select]", 'C02'),
     M('mixture-transform-writes-argument', B, "        points_t = np.copy(points)\n",
       "        points_t = np.asarray(points, dtype=float)\n", 'C13 C07 C11'),
     M('split-volume-test-inverted', U, "        if (logsumexp([new_bounds[0].log_v, new_bounds[1].log_v]) >\n                self.bounds[index].log_v):",
